@@ -28,6 +28,7 @@ def run(ctx):
     b_runtimes(ctx)
     c_v2_rails(ctx)
     d_flag(ctx)
+    e_hide_prev_turn(ctx)
 
 
 # ---------------------------------------------------------------------------------
@@ -109,8 +110,16 @@ def a_dispatcher(ctx):
                 if isinstance(r.value, ast.Tuple) and len(r.value.elts) == 2 and isinstance(r.value.elts[1], ast.Constant) and r.value.elts[1].value == "success":
                     ok, why = False, "the `except Exception` handler returns status 'success'"
             # inner try blocks between the call and the broad handler must not swallow into success silently: fine
+            # the handler itself must not be able to raise (it runs with arbitrary user parameters)
+            for x in [y for st in h.body for y in walk_no_nested(st)]:
+                if isinstance(x, ast.Call):
+                    f = src(x.func)
+                    if not (f.startswith("log.") or f.startswith("logging.") or f.endswith(".items") or f in ("str", "repr", "type", "isinstance")):
+                        ok, why = False, "lies in a try whose `except Exception` handler calls `%s(...)`, which can raise on arbitrary action parameters: the exception then escapes from inside the handler" % f
+                if isinstance(x, ast.Subscript) and isinstance(x.ctx, ast.Load):
+                    ok, why = False, "lies in a try whose `except Exception` handler evaluates `%s`, which can raise inside the handler" % src(x)
             if ok:
-                why = "lies in the try whose `except Exception` handler logs and falls through to (None, 'failed')"
+                why = "lies in the try whose `except Exception` handler only logs (cannot raise) and falls through to (None, 'failed')"
         ctx.check("C03.a.containment", DISP, "ActionDispatcher.execute_action", first_line(ast_stmt(c)), ok,
                   "user-code expression `%s` %s" % (first_line(c, 60), why), line=c.lineno)
     # return discipline
@@ -264,3 +273,76 @@ def d_flag(ctx):
     for o in sub.obligations:
         if o.rule.startswith("C02.d.flag-pairing"):
             ctx.check(o.rule.replace("C02.d", "C03.d"), o.file, o.unit, o.construct, o.ok, o.msg, line=o.line)
+
+
+# ---------------------------------------------------------------------------------
+def _index_provenance(fn):
+    """{name: collection} for integer variables that are positions in a collection."""
+    prov = {}
+    holders = {}  # list variable -> provenance of the indexes stored in it
+    changed = True
+    rounds = 0
+    while changed and rounds < 6:
+        changed = False
+        rounds += 1
+        for n in walk_no_nested(fn):
+            if isinstance(n, ast.For) and isinstance(n.iter, ast.Call) and src(n.iter.func) == "enumerate" and n.iter.args and isinstance(n.iter.args[0], ast.Name) \
+                    and isinstance(n.target, ast.Tuple) and isinstance(n.target.elts[0], ast.Name):
+                k, c = n.target.elts[0].id, n.iter.args[0].id
+                if prov.get(k) != c:
+                    prov[k] = c
+                    changed = True
+            if isinstance(n, ast.Assign) and len(n.targets) == 1 and isinstance(n.targets[0], ast.Name):
+                k, v = n.targets[0].id, n.value
+                c = None
+                lens = [x.args[0].id for x in ast.walk(v) if isinstance(x, ast.Call) and src(x.func) == "len" and x.args and isinstance(x.args[0], ast.Name)]
+                if lens and isinstance(v, (ast.BinOp, ast.Call)):
+                    c = lens[0]
+                pops = [x for x in ast.walk(v) if isinstance(x, ast.Call) and isinstance(x.func, ast.Attribute) and x.func.attr == "pop" and isinstance(x.func.value, ast.Name)]
+                if pops and pops[0].func.value.id in holders:
+                    c = holders[pops[0].func.value.id]
+                subs = [x for x in ast.walk(v) if isinstance(x, ast.Subscript) and isinstance(x.value, ast.Name) and x.value.id in holders]
+                if subs:
+                    c = holders[subs[0].value.id]
+                if isinstance(v, ast.Name) and v.id in prov:
+                    c = prov[v.id]
+                if c is not None and prov.get(k) != c:
+                    prov[k] = c
+                    changed = True
+            if isinstance(n, ast.Call) and isinstance(n.func, ast.Attribute) and n.func.attr in ("append", "insert") and isinstance(n.func.value, ast.Name) and n.args:
+                a = n.args[-1]
+                if isinstance(a, ast.Name) and a.id in prov and holders.get(n.func.value.id) != prov[a.id]:
+                    holders[n.func.value.id] = prov[a.id]
+                    changed = True
+    return prov
+
+
+def e_hide_prev_turn(ctx):
+    """A failed action answers with the internal-error message and `hide_prev_turn`; the next turn
+    is clean only if that marker removes exactly the failed turn from the replayed history."""
+    t = ctx.tree.ast(FL1)
+    fn = find_function(t, "compute_next_steps")
+    if fn is None:
+        raise AnalysisError("compute_next_steps not found", anchor=FL1 + "::compute_next_steps")
+    hides = [n for n in walk_no_nested(fn) if isinstance(n, ast.If) and "hide_prev_turn" in src(n.test)]
+    ctx.floor("C03.e.hide-prev-turn", FL1, "hide_prev_turn handling in compute_next_steps", len(hides), 1)
+    prov = _index_provenance(fn)
+    for h in hides:
+        cuts = [a for s in h.body for a in ast.walk(s) if isinstance(a, ast.Assign) and isinstance(a.value, ast.Subscript) and isinstance(a.value.slice, ast.Slice)
+                and isinstance(a.targets[0], ast.Name) and src(a.value.value) == a.targets[0].id]
+        ok = bool(cuts)
+        msg = "no truncation of the replayed history on hide_prev_turn"
+        for c in cuts:
+            L = c.targets[0].id
+            up = c.value.slice.upper
+            idx = [n.id for n in ast.walk(up) if isinstance(n, ast.Name)] if up is not None else []
+            bad = [i for i in idx if prov.get(i) not in (None, L)]
+            unknown = [i for i in idx if prov.get(i) is None]
+            lower_ok = c.value.slice.lower is None or src(c.value.slice.lower) == "0"
+            # the position must be found by looking at the SAME list for the last user utterance
+            scans = [x for s in h.body for x in ast.walk(s) if isinstance(x, ast.Compare) and "UtteranceUserActionFinished" in src(x) and src(x).startswith(L + "[")]
+            ok = not bad and not unknown and lower_ok and bool(scans)
+            msg = ("`%s` cuts the replayed history at a position computed from that same list (scan for the last UtteranceUserActionFinished in `%s`)" % (src(c), L)) if ok else \
+                ("`%s`: the cut position %s %s; positions in another list shift after an earlier cut, so a second failure hides the wrong span and earlier (blocked/failed) turns re-enter the conversation" % (
+                    src(c), idx, "is a position in `%s`, not in `%s`" % (prov.get(bad[0]), L) if bad else "is not derived from a scan of `%s` for the last user utterance" % L))
+            ctx.check("C03.e.hide-prev-turn", FL1, "compute_next_steps", src(c), ok, msg, line=c.lineno)
